@@ -131,6 +131,7 @@ def foreign_case(seed, idx):
 
 
 def run(ctx):
+    gen.LOOSE_BOOL = True
     ctx.note('reference_selfcheck_vectors', selfcheck.check_codec())
     ctx.rule = ('C01 case space in both directions against harness/ref_codec.py: A = real marshal output strictly decoded '
                 'and re-encoded byte-identically; B = reference encodings (any variant content) decoded by real '
